@@ -503,11 +503,12 @@ def _world(block):
     sim = market.ScriptedSimulate(stock, scripts)
     is_option = kind in market.OPTION_KINDS
     mv = block["model"]
+    H = 2 if block.get("hedge") == "stock+listed" else 1
     if mv == "naked":
-        model, inputs = Naked(1), ["zeros"]
+        model, inputs = Naked(H), ["zeros"]
     elif mv == "linear":
         inputs = ["moneyness", "time_to_maturity"] if is_option else ["underlier_spot", "zeros"]
-        model = _dyadic_linear(2, 1, block.get("wseed", 0), dtype)
+        model = _dyadic_linear(2, H, block.get("wseed", 0), dtype)
     elif mv == "bs":
         model = BlackScholes(deriv)
         inputs = model.inputs()
@@ -517,7 +518,7 @@ def _world(block):
         inputs = model.inputs()
     elif mv == "linear_prev":   # state dependent dyadic linear model
         inputs = (["moneyness", "time_to_maturity"] if is_option else ["underlier_spot", "zeros"]) + ["prev_hedge"]
-        model = _dyadic_linear(3, 1, block.get("wseed", 0), dtype)
+        model = _dyadic_linear(2 + H, H, block.get("wseed", 0), dtype)
     elif mv == "dropout":       # mode-dependent layer: the hedge depends on hedger.training (and on the torch RNG)
         inputs = ["moneyness", "time_to_maturity"] if is_option else ["underlier_spot", "zeros"]
         model = torch.nn.Sequential(_dyadic_linear(2, 4, block.get("wseed", 0), dtype), torch.nn.Dropout(0.5),
@@ -539,7 +540,7 @@ def price(ctx, block):
     n_times = len(block["alphabets"])
     hedger, deriv, stock, sim, scripts = _world(block)
     n_paths = scripts[0]["spot"].size(0)
-    hedge = [stock] if block.get("hedge") == "stock" else None
+    hedge = _hedge_list(block, stock)
     init_state = block.get("init_state")
     init = None if init_state is None else tuple(init_state)
     site = "Hedger.price"
@@ -674,7 +675,7 @@ def price(ctx, block):
         b2 = dict(block)
         b2["clauses"] = list(block.get("clauses", [])) + [k]
         h2, d2, s2, sim2, _ = _world(b2)
-        hedge2 = [s2] if block.get("hedge") == "stock" else None
+        hedge2 = _hedge_list(b2, s2)
         reseed()
         got2 = float(h2.price(d2, hedge=hedge2, n_paths=n_paths, n_times=n_times, init_state=init))
         ctx.tick(1, nontrivial=1)
@@ -703,14 +704,50 @@ def _contractual_payoff(block, deriv, stock):
     return pay
 
 
+LISTED_COST = 1 / 64
+
+
+def _hedge_list(block, stock):
+    """None (the underlier), the stock itself, or lists containing a LISTED option whose cost rate
+    (1/64) differs from the underlier's (1/512): the cost charged is the hedging instrument's own."""
+    hv = block.get("hedge")
+    if hv in (None, "stock"):
+        return None if hv is None else [stock]
+    import pfhedge.instruments as I
+    listed = I.EuropeanOption(stock, strike=1.125, maturity=(block["T"] - 1) * market.DT)
+    listed.list(lambda d: torch.nn.functional.relu(d.ul().spot - 1.125) + 0.25 * d.ul().spot, cost=LISTED_COST)
+    return [listed] if hv == "listed" else [stock, listed]
+
+
+def _wealth(spots, unit, costs):
+    """Terminal wealth of the self-financing strategy, written from the definition (reference, float64):
+    sum_h sum_t unit[h][t] (S[h][t+1] - S[h][t]) - sum_h c_h (|unit[h][0]| S[h][0] + sum_{t>=1} |unit[h][t] - unit[h][t-1]| S[h][t]),
+    each hedging instrument charged at ITS OWN proportional cost rate c_h.  spots, unit: (N, H, T)."""
+    N, H, T = spots.shape
+    w = torch.zeros(N, dtype=spots.dtype)
+    for h in range(H):
+        for t in range(T - 1):
+            w = w + unit[:, h, t] * (spots[:, h, t + 1] - spots[:, h, t])
+        traded = unit[:, h, 0].abs() * spots[:, h, 0]
+        for t in range(1, T):
+            traded = traded + (unit[:, h, t] - unit[:, h, t - 1]).abs() * spots[:, h, t]
+        w = w - costs[h] * traded
+    return w
+
+
 def _pls(hedger, deriv, hedge, stock, scripts, block=None):
-    """portfolio - contractual payoff per script, recomputed on the very buffers the script registers."""
+    """reference portfolio - contractual payoff per script, on the very buffers the script registers.
+    The portfolio is the wealth model above applied to the hedge the hedger computes, the prices of the
+    hedging instruments and their own cost rates (not compute_portfolio)."""
     out = []
     with torch.no_grad():
         for s in scripts:
             market.set_buffers(stock, **s)
             pay = deriv.payoff() if block is None else _contractual_payoff(block, deriv, stock)
-            out.append(hedger.compute_portfolio(deriv, hedge) - pay)
+            hl = hedge if hedge is not None else list(deriv.underliers())
+            unit = hedger.compute_hedge(deriv, hedge=hedge)
+            spots = torch.stack([h.spot for h in hl], dim=1)
+            out.append(_wealth(spots, unit, [h.cost for h in hl]) - pay)
     return out
 
 
@@ -799,6 +836,17 @@ def price_blocks(ctx):
                     b = {"T": 3, "derivative": kind, "model": mv, "crit": crit, "param": p, "dtype": "float64",
                          "alphabets": [A0], "cost": 1 / 512, "wseed": ctx.seed % 5,
                          "hedge": "stock" if mv == "linear" else None, "init_state": None, "clauses": cl}
+                    if crit in CLOSED:
+                        b["shift"] = 0.375
+                    out.append(b)
+    # hedge lists whose cost rates differ from the underlier's: a listed option (cost 1/64) alone and next to the stock (1/512)
+    for kind in (("european", "lookback") if ctx.quick else market.ALL_DERIVATIVE_KINDS):
+        for hv in ("listed", "stock+listed"):
+            for mv in ("linear", "linear_prev"):
+                for crit, p in (("erm", 1.0), ("es", 0.5), ("qcvar", 10.0), ("user_blend", 0.5)):
+                    b = {"T": 3, "derivative": kind, "model": mv, "crit": crit, "param": p, "dtype": "float64",
+                         "alphabets": [A0] if mv == "linear" else [A0, A1], "cost": 1 / 512, "wseed": ctx.seed % 5,
+                         "hedge": hv, "init_state": None, "repeat": 1}
                     if crit in CLOSED:
                         b["shift"] = 0.375
                     out.append(b)
